@@ -149,3 +149,102 @@ def polygon_area_2d(poly):
         return 0.0
     x, y = poly[:, 0], poly[:, 1]
     return 0.5 * abs(np.dot(x, np.roll(y, -1)) - np.dot(y, np.roll(x, -1)))
+
+
+# ----------------------------------------------------------------------------------------------------------------------
+# Euclidean Voronoi cells in R^3 (independent of scipy.spatial.Voronoi)
+# ----------------------------------------------------------------------------------------------------------------------
+
+def _plane_basis(n):
+    n = n / np.linalg.norm(n)
+    e = np.eye(3)[np.argmin(np.abs(n))]
+    e1 = e - n * (e @ n)
+    e1 /= np.linalg.norm(e1)
+    e2 = np.cross(n, e1)
+    return e1, e2
+
+
+def euclid_face(P, i, j, big=None):
+    """
+    Polygon (in 3-D coordinates) and area of the planar face shared by the Euclidean Voronoi cells of P[i] and P[j]:
+    the part of the bisector plane that is at least as close to i (and j) as to every other point. Computed by clipping
+    a huge square in the bisector plane with all other bisector half planes. Returns (area, polygon3d, touches_big).
+    """
+    P = np.asarray(P, dtype=float)
+    if big is None:
+        big = 1e3 * max(1.0, np.abs(P).max())
+    m = (P[i] + P[j]) / 2
+    e1, e2 = _plane_basis(P[i] - P[j])
+    others = np.array([k for k in range(len(P)) if k != i and k != j])
+    D = P[i][None, :] - P[others]                      # p_i - p_k
+    mid = (P[i][None, :] + P[others]) / 2
+    # constraint (m + s e1 + t e2 - mid_k) . D_k >= 0
+    normals = np.stack([D @ e1, D @ e2], axis=1)
+    offsets = np.einsum("ij,ij->i", m[None, :] - mid, D)
+    # nearest constraints first: the polygon shrinks quickly and most later constraints are 'all inside'
+    scale = np.linalg.norm(normals, axis=1)
+    ok = scale > 1e-300
+    order = np.argsort(np.where(ok, offsets / np.where(ok, scale, 1), np.inf))
+    poly = np.array([[-big, -big], [big, -big], [big, big], [-big, big]])
+    poly = clip_polygon_halfplanes(poly, normals[order], offsets[order])
+    if len(poly) < 3:
+        return 0.0, np.zeros((0, 3)), False
+    touches = bool(np.abs(poly).max() >= big * (1 - 1e-9))
+    return polygon_area_2d(poly), m[None, :] + poly[:, :1] * e1 + poly[:, 1:] * e2, touches
+
+
+def euclid_cell_volume(P, i, big=None):
+    """Volume of the Euclidean Voronoi cell of P[i] via the intersection of its bisector half spaces (qhull
+    HalfspaceIntersection + ConvexHull: a different route than the library's Voronoi-vertex lifting). Returns
+    (volume, bounded)."""
+    from scipy.spatial import HalfspaceIntersection, ConvexHull
+    P = np.asarray(P, dtype=float)
+    if big is None:
+        big = 1e3 * max(1.0, np.abs(P).max())
+    others = np.array([k for k in range(len(P)) if k != i])
+    A = P[others] - P[i]
+    b = -(np.einsum("ij,ij->i", P[others], P[others]) - P[i] @ P[i]) / 2
+    box_A = np.vstack([np.eye(3), -np.eye(3)])
+    box_b = -np.full(6, big)
+    hs = np.hstack([np.vstack([A, box_A]), np.concatenate([b, box_b])[:, None]])
+    hi = HalfspaceIntersection(hs, P[i].copy())
+    verts = hi.intersections
+    bounded = bool(np.abs(verts).max() < big * (1 - 1e-9))
+    return float(ConvexHull(verts).volume), bounded
+
+
+def euclid_self_test():
+    problems = []
+    # cubic lattice 3x3x3: the centre cell is the unit cube, its six faces unit squares
+    pts = np.array([[x, y, z] for x in (-1, 0, 1) for y in (-1, 0, 1) for z in (-1, 0, 1)], dtype=float)
+    c = 13
+    vol, bounded = euclid_cell_volume(pts, c)
+    if not bounded or abs(vol - 1) > 1e-12:
+        problems.append(f"unit cube cell volume {vol} bounded={bounded}")
+    j = int(np.nonzero((pts == [1, 0, 0]).all(axis=1))[0][0])
+    area, poly, touch = euclid_face(pts, c, j)
+    if abs(area - 1) > 1e-12 or touch:
+        problems.append(f"unit square face area {area}")
+    k = int(np.nonzero((pts == [1, 1, 0]).all(axis=1))[0][0])
+    area, poly, touch = euclid_face(pts, c, k)
+    if area > 1e-12:
+        problems.append(f"edge contact reported as a face of area {area}")
+    # bcc lattice cell: truncated octahedron of volume 4 (a=2): hexagon faces area 3*sqrt(3)/2*(a*sqrt(2)/4)^2...
+    a = 2.0
+    corner = np.array([[x, y, z] for x in range(-2, 3) for y in range(-2, 3) for z in range(-2, 3)], dtype=float) * a
+    centre = corner + a / 2
+    pts = np.vstack([corner, centre])
+    c = int(np.nonzero((pts == [0, 0, 0]).all(axis=1))[0][0])
+    vol, bounded = euclid_cell_volume(pts, c)
+    if not bounded or abs(vol - a ** 3 / 2) > 1e-10:
+        problems.append(f"bcc cell volume {vol}")
+    j = int(np.nonzero((pts == [a / 2, a / 2, a / 2]).all(axis=1))[0][0])
+    area, _, _ = euclid_face(pts, c, j)
+    edge = a * np.sqrt(2) / 4
+    if abs(area - 3 * np.sqrt(3) / 2 * edge ** 2) > 1e-10:
+        problems.append(f"bcc hexagon area {area} vs {3 * np.sqrt(3) / 2 * edge ** 2}")
+    j = int(np.nonzero((pts == [a, 0, 0]).all(axis=1))[0][0])
+    area, _, _ = euclid_face(pts, c, j)
+    if abs(area - edge ** 2) > 1e-10:
+        problems.append(f"bcc square area {area} vs {edge ** 2}")
+    return problems
